@@ -172,7 +172,6 @@ func implLine(outs []string, resp []NC, buildPanic bool) string {
 // format applied to a name over [$.0-9a-zA-Z_]. Written down here independently of the model.
 var (
 	oracleMarker = regexp.MustCompile(regexp.QuoteMeta("@@thriftgo_insertion_point(") + `[$.0-9a-zA-Z_]*` + regexp.QuoteMeta(")"))
-	oracleWord   = regexp.MustCompile(`^[$.0-9a-zA-Z_]*$`)
 )
 
 type patchT struct{ ip, content string }
@@ -200,25 +199,54 @@ func sibOrSelf(got, want string) bool {
 	return err == nil && k >= 1 && strconv.Itoa(k) == mid
 }
 
+// render: the submitted text with every occurrence of an insertion point replaced by the patches for
+// that point, in submission order. An insertion point occurs where the text spells
+// plugin.InsertionPoint(p): for names over the marker alphabet these are the regexp markers (removed even
+// without a patch); for a patch point with any other bytes it is the literal marker text of that point.
+// Occurrences are taken left to right, non-overlapping. No verdict (false) when one of these texts is a
+// proper prefix of another one (the statement does not say which occurrence is meant).
 func render(content string, ps []patchT) (string, bool) {
+	seen := map[string]bool{}
+	var keys []string
+	add := func(k string) {
+		if !seen[k] {
+			seen[k] = true
+			keys = append(keys, k)
+		}
+	}
+	for _, m := range oracleMarker.FindAllString(content, -1) {
+		add(m)
+	}
 	for _, p := range ps {
-		if !oracleWord.MatchString(p.ip) {
-			return "", false
+		add("@@thriftgo_insertion_point(" + p.ip + ")")
+	}
+	for _, k := range keys {
+		for _, q := range keys {
+			if k != q && strings.HasPrefix(q, k) {
+				return "", false
+			}
 		}
 	}
 	var sb strings.Builder
-	pos := 0
-	for _, loc := range oracleMarker.FindAllStringIndex(content, -1) {
-		sb.WriteString(content[pos:loc[0]])
-		name := content[loc[0]+len("@@thriftgo_insertion_point(") : loc[1]-1]
+	for pos := 0; pos < len(content); {
+		hit := ""
+		for _, k := range keys {
+			if strings.HasPrefix(content[pos:], k) {
+				hit = k
+			}
+		}
+		if hit == "" {
+			sb.WriteByte(content[pos])
+			pos++
+			continue
+		}
 		for _, p := range ps {
-			if p.ip == name {
+			if "@@thriftgo_insertion_point("+p.ip+")" == hit {
 				sb.WriteString(p.content)
 			}
 		}
-		pos = loc[1]
+		pos += len(hit)
 	}
-	sb.WriteString(content[pos:])
 	return sb.String(), true
 }
 
@@ -230,7 +258,7 @@ type failure struct {
 // oracle evaluates the property statement on what the implementation returned. It replays the
 // statement's bookkeeping (which submitted file is kept or dropped, which file a patch targets),
 // taking the names the implementation chose from the response, and never consults the model.
-// skipped counts the content checks it could not make (patch points outside the marker alphabet).
+// skipped counts the content checks it could not make (marker texts of one file not prefix-free).
 func oracle(h History, outs []string, resp []NC, buildPanic bool) (res *failure, skipped int) {
 	mk := func(class, what string, exp, obs interface{}) *failure {
 		return &failure{class, vl.OracleFail{What: what, Input: h, Expected: exp, Observed: obs}}
@@ -697,7 +725,8 @@ func shrink(h History, f *failure) (History, *failure) {
 const marker = "@@thriftgo_insertion_point("
 
 var basePool = []string{"a.go", "b.go", "k-a.go", "dir/a.go", "d.x/f", "a", "a.b.go", ".hid", "x.", "", "gen/t/t.go", "p.q/r_1", "a_1.go", "é.go"}
-var pointPool = []string{"a", "b", "imports", "x.y", "$", "", "A_0", "a-b", "a)b", "é", "a b", "a@@thriftgo_insertion_point(b"}
+var pointPool = []string{"a", "b", "imports", "x.y", "$", "", "A_0", "a-b", "a)b", "é", "a b", "a@@thriftgo_insertion_point(b",
+	"my-plugin.hook", "handlers/v2", "(x", "x(y", "@", "@@", "a@b", "x)", "世界", "a\tb", ")"}
 var textPool = []string{"X", "Y", "Z", "package p\n", "\n", "", "//", "é", "\xff", ")", "(", "@", "@@", "_1"}
 var nearPool = []string{ // marker-like text that is not a marker (or is one in a surprising way)
 	"@@thriftgo_insertion_point(a-b)", "@@thriftgo_insertion_point(a", "@thriftgo_insertion_point(a)", "@@thriftgo_insertion_point a)",
@@ -746,7 +775,7 @@ func (g *gen) history(maxItems int) History {
 	var points []string
 	np := 1 + r.Intn(4)
 	for i := 0; i < np; i++ {
-		if r.Chance(80) {
+		if r.Chance(65) {
 			points = append(points, pointPool[r.Intn(7)]) // inside the marker alphabet
 		} else {
 			points = append(points, r.Pick(pointPool))
@@ -913,7 +942,7 @@ func (g *gen) emit(h History, class string) {
 		g.out.Count("oracle:no-verdict(same content under a submitted name of renamed shape)")
 	}
 	if skipped > 0 {
-		g.out.Count("oracle:content-check-skipped(non-word point)")
+		g.out.Count("oracle:content-check-skipped(marker texts not prefix-free)")
 	}
 	if f != nil {
 		g.out.Count("oracle-fail:" + f.class)
@@ -957,13 +986,15 @@ func (g *gen) fixed() []History {
 		one(f("a.go", "@@thriftgo_insertion_@@thriftgo_insertion_point(a)point(b)"), up("b", "B")),
 		one(f("a.go", "x@@thriftgo_insertion_point(a-b)y"), up("a-b", "P")),
 		one(f("a.go", m("a")), up("a", m("a"))),
+		one(f("a.go", "1"+m("my-plugin.hook")+"2"+m("handlers/v2")+"3"+m("my-plugin.hook")), up("my-plugin.hook", "H"), np("a.go", "handlers/v2", "V"), up("nowhere-", "N")),
+		one(f("a.go", m("(x")+m("@")+m("世界")+m("a b")), up("(x", "1"), up("@", "2"), up("世界", "3"), up("a b", "4")),
 		one(f(".hid", "1"), f(".hid", "2"), f("d.x/f", "1"), f("d.x/f", "2"), f("x.", "1"), f("x.", "2"), f("", "1"), f("", "2")),
 	}
 }
 
 // corpus reads the inputs of the replay files of past failures (replays/C12-*.json); they run first.
-func corpus(dir string) []History {
-	var out []History
+func corpus(dir string) []json.RawMessage {
+	var out []json.RawMessage
 	files, _ := filepath.Glob(filepath.Join(dir, "C12-*.json"))
 	sort.Strings(files)
 	for _, fn := range files {
@@ -972,7 +1003,7 @@ func corpus(dir string) []History {
 			continue
 		}
 		var doc struct {
-			Input History `json:"input"`
+			Input json.RawMessage `json:"input"`
 		}
 		if json.Unmarshal(b, &doc) == nil && doc.Input != nil {
 			out = append(out, doc.Input)
@@ -985,8 +1016,9 @@ func run(dir string, seed uint64, tier string, part, parts int, corpusDir string
 	g := &gen{r: vl.NewRng(seed*1000 + uint64(part)), out: vl.NewOut(dir)}
 	if part == 0 {
 		if corpusDir != "" {
-			for _, h := range corpus(corpusDir) {
-				g.emit(h, "corpus(past failures)")
+			for _, raw := range corpus(corpusDir) {
+				g.out.Count("corpus(past failures)")
+				_ = replayInput(raw, g)
 			}
 		}
 		// regression item (Props.C12.oldWitness): the history that answered two files named a_1.go before 54c21d0
@@ -1006,6 +1038,13 @@ func run(dir string, seed uint64, tier string, part, parts int, corpusDir string
 			}
 			g.emit(History{{Src: "chain", Items: items}}, "chain")
 		}
+	}
+	if part == 0 {
+		ne := 60
+		if tier == "thorough" {
+			ne = 600
+		}
+		g.e2e(ne)
 	}
 	n, maxItems := 20000, 12
 	if tier == "thorough" {
@@ -1039,14 +1078,14 @@ func replay(file, dir string) error {
 		return err
 	}
 	var doc struct {
-		Input History `json:"input"`
+		Input json.RawMessage `json:"input"`
 	}
 	if err := json.Unmarshal(b, &doc); err != nil {
 		return err
 	}
 	g := &gen{r: vl.NewRng(1), out: vl.NewOut(dir)}
-	if doc.Input != nil {
-		g.emit(doc.Input, "replay")
+	if err := replayInput(doc.Input, g); err != nil {
+		return err
 	}
 	g.out.Close()
 	return nil
@@ -1207,9 +1246,59 @@ func extract(repo string) error {
 	p("  close := %d,\n", suf[0])
 	p("  ptPre := %s,\n", leanNats(ptPre))
 	p("  ptSuf := %s }\n\n", leanNats(ptSuf))
+	items, err := backendItems(repo)
+	if err != nil {
+		return err
+	}
+	p("-- generator/golang/backend.go renderByTemplate: (has Name, has InsertionPoint) of each plugin.Generated appended, in order\n")
+	p("def backendItems : List (Bool × Bool) := [%s]\n\n", strings.Join(items, ", "))
 	p("end Generated.C12\n")
 	fmt.Print(w.String())
 	return nil
+}
+
+// backendItems reads, in source order, the plugin.Generated literals of GoBackend.renderByTemplate and
+// which of Name / InsertionPoint each one sets.
+func backendItems(repo string) ([]string, error) {
+	path := filepath.Join(repo, "generator", "golang", "backend.go")
+	file, err := parser.ParseFile(token.NewFileSet(), path, nil, 0)
+	if err != nil {
+		return nil, err
+	}
+	var out []string
+	found := false
+	for _, d := range file.Decls {
+		fd, ok := d.(*ast.FuncDecl)
+		if !ok || fd.Name.Name != "renderByTemplate" || fd.Body == nil {
+			continue
+		}
+		found = true
+		ast.Inspect(fd.Body, func(n ast.Node) bool {
+			cl, ok := n.(*ast.CompositeLit)
+			if !ok || exprString(cl.Type) != "plugin.Generated" {
+				return true
+			}
+			name, point := false, false
+			for _, e := range cl.Elts {
+				if kv, ok := e.(*ast.KeyValueExpr); ok {
+					switch exprString(kv.Key) {
+					case "Name":
+						name = true
+					case "InsertionPoint":
+						point = true
+					}
+				} else {
+					name, point = true, true // positional literal: all fields
+				}
+			}
+			out = append(out, fmt.Sprintf("(%v, %v)", name, point))
+			return true
+		})
+	}
+	if !found || len(out) == 0 {
+		return nil, fmt.Errorf("%s: no plugin.Generated literal in func renderByTemplate", path)
+	}
+	return out, nil
 }
 
 func exprString(e ast.Expr) string {
